@@ -3,9 +3,9 @@ package schemasim
 import (
 	"database/sql"
 	"fmt"
+	"math/big"
 	"regexp"
 	"sort"
-	"strconv"
 	"strings"
 
 	"ariga.io/atlas/sql/sqlite"
@@ -235,8 +235,9 @@ func tableCatalog(db *sql.DB, name, createSQL string) (string, error) {
 		// On a column without text or blob affinity the spelling of a numeric default (1.0, 1.50,
 		// .5, 1e5) is not part of the schema: the number is.
 		if up := strings.ToUpper(base); !strings.Contains(up, "CHAR") && !strings.Contains(up, "CLOB") && !strings.Contains(up, "TEXT") && !strings.Contains(up, "BLOB") && up != "" {
-			if f, err := strconv.ParseFloat(def, 64); err == nil {
-				def = strconv.FormatFloat(f, 'g', -1, 64)
+			// With more precision than a float64 has: 9007199254740993 is not 9007199254740992.
+			if f, _, err := big.ParseFloat(def, 10, 512, big.ToNearestEven); err == nil {
+				def = f.Text('g', 40)
 			}
 		}
 		lines = append(lines, fmt.Sprintf("col %s type=%s notnull=%d default=%s pk=%d%s", cname, base, notnull, def, pk, gen))
